@@ -1,7 +1,16 @@
-"""Extra per-property stages run by ./check after the native monitors:
-sanitizer runs (Miri, AddressSanitizer), the C01 cache-free configuration and
-the C17 generated crate.  Each stage returns
-{name, info, violations: [...], inconclusive: str|None}."""
+"""Extra per-property stages run by ./check after (or instead of) the native
+monitors: the C17 generated crates, sanitizer runs (Miri, AddressSanitizer) and
+the C01 cache-free configuration.  Each stage returns
+{name, info, violations: [...], inconclusive: str|None} and, for a stage that
+replaces the native worker (C17), also "result" in the worker's JSON format."""
+import json
+import os
+import re
+import shutil
+import subprocess
+import time
+
+STAGE_ONLY = {"C17"}
 
 
 def setup(env, say):
@@ -10,4 +19,228 @@ def setup(env, say):
 
 
 def for_property(prop, tier):
-    return []
+    st = []
+    if prop == "C17":
+        st.append(c17)
+    if tier == "thorough" and prop in MIRI_PROPS:
+        st.append(miri_stage)
+    if tier == "thorough" and prop in ASAN_PROPS:
+        st.append(asan_stage)
+    if tier == "thorough" and prop == "C01":
+        st.append(c01_config_b)
+    return st
+
+
+MIRI_PROPS = set()
+ASAN_PROPS = set()
+
+
+def miri_stage(**kw):
+    return {"name": "miri", "info": {}, "violations": [], "inconclusive": None}
+
+
+def asan_stage(**kw):
+    return {"name": "asan", "info": {}, "violations": [], "inconclusive": None}
+
+
+def c01_config_b(**kw):
+    return {"name": "c01-config-b", "info": {}, "violations": [], "inconclusive": None}
+
+
+# --------------------------------------------------------------------------- C17
+
+def _cargo_json(cmd, cwd, env, timeout):
+    p = subprocess.run(cmd, cwd=cwd, env=env, stdout=subprocess.PIPE, stderr=subprocess.PIPE, text=True, timeout=timeout)
+    msgs = []
+    for line in p.stdout.splitlines():
+        line = line.strip()
+        if not line.startswith("{"):
+            continue
+        try:
+            msgs.append(json.loads(line))
+        except ValueError:
+            pass
+    return p, msgs
+
+
+def _error_lines(msgs, file_suffix):
+    """Lines (1-based) of `file_suffix` on which rustc reports an error, with the message."""
+    out = {}
+    other = []
+    for m in msgs:
+        if m.get("reason") != "compiler-message":
+            continue
+        msg = m.get("message", {})
+        if msg.get("level") != "error":
+            continue
+        text = msg.get("message", "")
+        if text.startswith("aborting due to") or text.startswith("could not compile"):
+            continue
+        lines = set()
+
+        def walk(span):
+            if span is None:
+                return
+            if span.get("file_name", "").endswith(file_suffix):
+                lines.add(span["line_start"])
+            exp = span.get("expansion")
+            if exp:
+                walk(exp.get("span"))
+        for sp in msg.get("spans", []):
+            if sp.get("is_primary", False):
+                walk(sp)
+        if not lines:
+            for sp in msg.get("spans", []):
+                walk(sp)
+        if not lines:
+            mm = re.search(r"--> [^\n]*%s:(\d+):" % re.escape(file_suffix), msg.get("rendered", "") or "")
+            if mm:
+                lines.add(int(mm.group(1)))
+        if lines:
+            for ln in lines:
+                out.setdefault(ln, []).append(text)
+        else:
+            other.append(text)
+    return out, other
+
+
+def c17(prop, tier, seed, env, say, verif, repo, target, bin, **kw):
+    t0 = time.time()
+    work = os.path.join(verif, "work", "c17")
+    shutil.rmtree(work, ignore_errors=True)
+    os.makedirs(work, exist_ok=True)
+    res = {"name": "c17-compiler", "info": {}, "violations": [], "inconclusive": None}
+    p = subprocess.run([bin, "C17", "--tier", tier, "--seed", str(seed), "--out", work], env=dict(env, IREF_REPO=repo), stdout=subprocess.PIPE, stderr=subprocess.PIPE, text=True)
+    if p.returncode != 0:
+        res["inconclusive"] = "generator failed: %s" % (p.stdout + p.stderr)[-300:]
+        return res
+    exp = json.load(open(os.path.join(work, "expected.json")))
+    lits = exp["literals"]
+    valid = [l for l in lits if l["set"] == "valid"]
+    invalid = [l for l in lits if l["set"] == "invalid"]
+    cenv = dict(env, CARGO_TARGET_DIR=os.path.join(target, "c17"))
+    for d in ("valid", "invalid"):
+        lock = os.path.join(repo, "Cargo.lock")
+        if os.path.exists(lock):
+            shutil.copy(lock, os.path.join(work, d, "Cargo.lock"))
+    viol = res["violations"]
+
+    def v(clause, lit, detail, feats=None):
+        f = {"macro": lit.get("macro", "?"), "spelling": lit.get("spelling_kind", "?")}
+        f.update(feats or {})
+        viol.append({"clause": clause, "features": f, "detail": detail,
+                     "case": {"mon": "literal", "a": [{"s": lit.get("macro", "")}, {"s": lit.get("text", "")}, {"s": lit.get("spelling", "")}], "n": []}})
+
+    # ---- valid set: must compile, then every constant must equal the run-time value
+    vdir = os.path.join(work, "valid")
+    try:
+        pb, msgs = _cargo_json(["cargo", "build", "--offline", "--message-format=json"], vdir, cenv, 3600)
+    except subprocess.TimeoutExpired:
+        res["inconclusive"] = "compiling the valid set timed out"
+        return res
+    src_lines = open(os.path.join(vdir, "src", "main.rs")).read().split("\n")
+    checked = set()
+    if pb.returncode != 0:
+        errs, other = _error_lines(msgs, "src/main.rs")
+        mapped = 0
+        for ln in sorted(errs):
+            lit_id = None
+            for k in (ln, ln - 1):
+                if k >= 1:
+                    mm = re.match(r"const V(\d+):", src_lines[k - 1])
+                    if mm and (k == ln or src_lines[k - 1].endswith("\\")):
+                        lit_id = int(mm.group(1))
+                        break
+            if lit_id is not None and lit_id < len(valid):
+                mapped += 1
+                v("C17.valid-rejected", valid[lit_id], "the literal %r (valid for %s! by the RFC model) is a compile error: %s" % (valid[lit_id]["text"], valid[lit_id]["macro"], "; ".join(errs[ln])[:200]))
+        if mapped == 0:
+            res["inconclusive"] = "the valid-set crate does not compile, and no error maps to a literal: %s" % ("; ".join(other) or pb.stderr[-300:])[:400]
+            return res
+    else:
+        exe = os.path.join(cenv["CARGO_TARGET_DIR"], "debug", "c17-valid")
+        try:
+            pr = subprocess.run([exe], stdout=subprocess.PIPE, stderr=subprocess.PIPE, text=True, timeout=600)
+        except subprocess.TimeoutExpired:
+            res["inconclusive"] = "the valid-set binary timed out"
+            return res
+        for line in pr.stdout.splitlines():
+            parts = line.split(" ", 2)
+            if parts[0] == "CHECKED":
+                checked.add(int(parts[1]))
+            elif parts[0] == "MISMATCH":
+                lit = valid[int(parts[1])]
+                v("C17.value", lit, "the constant built by %s! from %r differs from the run-time value: %s" % (lit["macro"], lit["text"], parts[2] if len(parts) > 2 else ""))
+        if pr.returncode != 0:
+            missing = [i for i in range(len(valid)) if i not in checked]
+            lit = valid[missing[0]] if missing else {"macro": "?", "text": ""}
+            v("C17.value", lit, "the valid-set binary failed at run time (exit %s) at or before literal %r: %s" % (pr.returncode, lit.get("text"), pr.stderr[-200:]), {"runtime": "failure"})
+        elif len(checked) != len(valid):
+            res["inconclusive"] = "only %d of %d constants were checked" % (len(checked), len(valid))
+    # ---- invalid set: an error on exactly the lines of the invalid literals
+    idir = os.path.join(work, "invalid")
+    try:
+        pi, msgs = _cargo_json(["cargo", "build", "--offline", "--message-format=json"], idir, cenv, 3600)
+    except subprocess.TimeoutExpired:
+        res["inconclusive"] = "compiling the invalid set timed out"
+        return res
+    errs, other = _error_lines(msgs, "src/lib.rs")
+    by_line = {l["line"]: l for l in invalid}
+    dep_failed = any(m.get("reason") == "compiler-message" and m.get("message", {}).get("level") == "error" and not m.get("target", {}).get("name", "").startswith("c17") for m in msgs)
+    if dep_failed or (pi.returncode != 0 and not errs and invalid):
+        res["inconclusive"] = "the invalid-set crate failed to build for another reason: %s" % ("; ".join(other) or pi.stderr[-300:])[:400]
+        return res
+    for ln, lit in sorted(by_line.items()):
+        if ln not in errs:
+            v("C17.invalid-accepted", lit, "the literal %r (invalid for %s! by the RFC model) did not produce a compile error" % (lit["text"], lit["macro"]))
+    for ln in sorted(errs):
+        if ln not in by_line:
+            v("C17.valid-rejected", {"macro": "uri", "text": "s:control" if ln == exp["control_line"] else "?", "spelling_kind": "plain"}, "unexpected compile error on line %d of the invalid-set crate: %s" % (ln, "; ".join(errs[ln])[:200]))
+    n = len(lits)
+    distinct = len({(l["macro"], l["text"]) for l in lits})
+    kinds = {}
+    for l in lits:
+        kinds["spelling:%s" % l["spelling_kind"]] = kinds.get("spelling:%s" % l["spelling_kind"], 0) + 1
+        kinds["%s:%s" % (l["set"], l["macro"])] = kinds.get("%s:%s" % (l["set"], l["macro"]), 0) + 1
+    samples = [{"macro": l["macro"], "set": l["set"], "literal_source": l["spelling"], "text": l["text"]} for l in (valid[:3] + invalid[:3] + valid[-2:] + invalid[-2:])]
+    res["info"] = {"valid_literals": len(valid), "invalid_literals": len(invalid), "constants_checked_at_run_time": len(checked), "compile_errors_observed_on_invalid_lines": len([l for l in by_line if l in errs]), "wall_s": round(time.time() - t0, 1)}
+    mandatory = ["valid:uri", "valid:uri_ref", "valid:iri", "valid:iri_ref", "invalid:uri", "invalid:uri_ref", "invalid:iri", "invalid:iri_ref", "spelling:raw", "spelling:unicode-escapes", "spelling:hex-escapes", "spelling:plain", "spelling:line-continuation"]
+    res["result"] = {
+        "evaluations": n, "distinct_nontrivial": distinct, "rule": exp["rule"], "samples": samples, "strata": kinds, "calls": {"rustc (valid set)": 1, "rustc (invalid set)": 1},
+        "extra": res["info"], "sets": {}, "panics_caught": 0, "violation_count": len(viol), "distinct_saturated": False,
+        "empty_mandatory_strata": [m for m in mandatory if kinds.get(m, 0) == 0], "violations": [], "wall_s": round(time.time() - t0, 1),
+    }
+    return res
+
+
+def replay(prop, path, env, say, verif, repo, target):
+    """Re-execute one recorded C17 case: compile a crate with that single literal."""
+    rec = json.load(open(path))
+    case = rec.get("case", {})
+    args = [a.get("s", "") for a in case.get("a", [])]
+    if len(args) < 3:
+        say("INCONCLUSIVE property=%s reason=bad_replay_file" % prop)
+        return 3
+    mac, text, spelling = args[0], args[1], args[2]
+    ty = {"uri": "Uri", "uri_ref": "UriRef", "iri": "Iri", "iri_ref": "IriRef"}.get(mac, "Uri")
+    work = os.path.join(verif, "work", "c17-replay")
+    shutil.rmtree(work, ignore_errors=True)
+    os.makedirs(os.path.join(work, "src"))
+    open(os.path.join(work, "Cargo.toml"), "w").write('[package]\nname = "c17-replay"\nversion = "0.0.0"\nedition = "2021"\n\n[dependencies]\niref = { path = "%s", features = ["macros"] }\n\n[workspace]\n' % repo)
+    lock = os.path.join(repo, "Cargo.lock")
+    if os.path.exists(lock):
+        shutil.copy(lock, os.path.join(work, "Cargo.lock"))
+    bytes_ = ",".join(str(b) for b in text.encode())
+    open(os.path.join(work, "src", "main.rs"), "w").write(
+        "use iref::%s;\nconst V: &'static %s = iref::%s!(%s);\nfn main() {\n    let b: &[u8] = &[%s];\n    let ok = V.as_bytes() == b && match <%s>::new(b) { Ok(r) => r == V && r.parts() == V.parts(), Err(_) => false };\n    println!(\"{}\", if ok { \"SAME\" } else { \"DIFFERENT\" });\n}\n" % (ty, ty, mac, spelling, bytes_, ty))
+    cenv = dict(env, CARGO_TARGET_DIR=os.path.join(target, "c17"))
+    p = subprocess.run(["cargo", "run", "--offline", "--quiet"], cwd=work, env=cenv, stdout=subprocess.PIPE, stderr=subprocess.PIPE, text=True)
+    compiled = p.returncode == 0 or "SAME" in p.stdout or "DIFFERENT" in p.stdout
+    clause = rec.get("clause", "")
+    violated = (clause == "C17.invalid-accepted" and compiled) or (clause == "C17.valid-rejected" and not compiled) or (clause == "C17.value" and (not compiled or "DIFFERENT" in p.stdout))
+    say("replay: literal %r through %s!: %s%s" % (text, mac, "compiles" if compiled else "compile error", (", value " + p.stdout.strip()) if compiled else ""))
+    if violated:
+        say("VIOLATION property=%s replay=%s" % (prop, path))
+        return 1
+    say("replayed case: no violation")
+    return 0
